@@ -15,6 +15,11 @@ QUERIES = [
     "SELECT ?s (COUNT(?o) AS ?c) WHERE { ?s <urn:p>+ ?o } GROUP BY ?s ORDER BY ?s",
     "SELECT * WHERE { ?s <urn:p>* ?o OPTIONAL { ?o <urn:q> ?x } FILTER NOT EXISTS { ?s <urn:r> ?y } }",
     "SELECT ?s WHERE { { SELECT ?s WHERE { ?s ?p ?o } LIMIT 1 } UNION { ?s <urn:p>/<urn:p> ?z } MINUS { ?s <urn:q> 1 } }",
+    # graph names that the dataset does not have: as a constant and through an already bound variable
+    "SELECT * WHERE { GRAPH <urn:absent-graph> { ?s ?p ?o } }",
+    "ASK { GRAPH <urn:absent-graph> { ?s ?p ?o } }",
+    "SELECT * WHERE { ?s <urn:p> ?g . GRAPH ?g { ?a ?b ?c } }",
+    "CONSTRUCT { ?s ?p ?o } WHERE { GRAPH <urn:another-absent-graph> { ?s ?p ?o } }",
 ]
 
 
@@ -137,7 +142,7 @@ class ReadsArePure(Suite):
 
     def bound(self, tier):
         return ("6 witness graphs/datasets (blank-node-named graph, empty named graph, falsy literals, rdf:List, "
-                "default_union on/off, ConjunctiveGraph, empty ones) x every serializer format (12) x 10 SPARQL queries "
+                "default_union on/off, ConjunctiveGraph, empty ones) x every serializer format (12) x 14 SPARQL queries (incl. GRAPH over names the dataset does not have) "
                 "(SELECT/ASK/CONSTRUCT/DESCRIBE, FROM/FROM NAMED, paths, aggregates, sub-select) x compare functions x "
                 "iteration/slicing/paths/skolemize/cbd: quads and graph names read straight from the store before/after; "
                 "the same call twice must give the same answer")
